@@ -456,6 +456,15 @@ def t_templates(ctx):
             for delta in (-1, 0, 1):
                 body = bytes((h + n + i) % 256 for i in range(max(n + delta, 0)))
                 ctx.run({'kind': 'raw', 'script': (bytes([h, n]) + body).hex()})
+    if ctx.shard == 1 % ctx.nshards:
+        # scripts longer than the 10,000-byte consensus limit (which none of the predicates is about) and around 0xffff
+        for L in (9999, 10000, 10001, 10002, 20000, 65535, 65536, 70000):
+            for unit in (b'\x61', b'\x51', b'\x02ab', b'\xac', b'\x4c\x02xy', b'\x00'):
+                sc = (unit * (L // len(unit) + 1))[:L - (L % len(unit))]
+                ctx.run({'kind': 'raw', 'script': sc.hex()})
+            ctx.run({'kind': 'raw', 'script': (b'\x4d' + (L - 3).to_bytes(2, 'little') + bytes(L - 3)).hex()} if L - 3 < 65536 else
+                    {'kind': 'raw', 'script': (b'\x4e' + (L - 5).to_bytes(4, 'little') + bytes(L - 5)).hex()})
+        ctx.exhaustive.append('well-formed scripts of 9,999..70,000 bytes (six repeated units and one single push) through every predicate')
     if ctx.shard == 0:
         for op in range(256):
             ctx.run({'kind': 'opn', 'op': op})
